@@ -18,6 +18,8 @@
      {op:"zc",   n, u, q, e:[..]}                   calcBaseZC(n, u, q)
      {op:"ext",  n, size, src:[..]}                 get_extended_ZF(arange(n), size)
      {op:"root", size, u, given, nzc, len, e:[..]}  RootSequence(u, size[, Nzc = given]): .Nzc, .size, seq_array()
+                                                    (recorder field omit: the call was RootSequence(u, Nzc = given), size := given)
+     {op:"root-args", size, given, u, out, nzc, len} constructor with size / Nzc omitted (0) or inconsistent: accepted or AttributeError
      {op:"ue",   fam, size, u, ncs, cover, normalize, nzc, norm2, t:[[..] per cover row]}      *)
 EXTENDS ZadoffChu, IOUtils
 
@@ -54,8 +56,17 @@ Machine(ev) ==
              e   == ExtSeq(ZcSeq(nzc, ev.u), ev.size)
          IN [case |-> [kind |-> IF ev.given > 0 THEN "root-explicit" ELSE "root",
                        size |-> ev.size, u |-> ev.u, nzc |-> nzc,
-                       idx |-> [i \in 1..ev.size |-> i - 1], e |-> e],
+                       idx |-> [i \in 1..ev.size |-> i - 1], e |-> e,
+                       full |-> TRUE, lags |-> <<1, 1 + (ev.u % (nzc - 1))>>, req |-> {}],
              cmp |-> << <<"Nzc", ev.nzc, nzc>>, <<"size", ev.len, ev.size>>, <<"sequence", ev.e, e>> >>]
+    [] ev.op = "root-args" ->
+         \* the constructor's argument rule: size and / or Nzc (0 = omitted); at least one of them, and size >= Nzc
+         LET ok   == (ev.size > 0 \/ ev.given > 0) /\ (ev.size = 0 \/ ev.given = 0 \/ ev.size >= ev.given)
+             size == IF ev.size = 0 THEN ev.given ELSE ev.size
+             nzc  == IF ev.given > 0 THEN ev.given ELSE IF ev.size > 0 THEN TablePick(ev.size) ELSE 0
+         IN [case |-> [kind |-> "root-args", size |-> ev.size, given |-> ev.given, accepted |-> ok],
+             cmp |-> IF ok THEN << <<"outcome", ev.out, "ok">>, <<"Nzc", ev.nzc, nzc>>, <<"size", ev.len, size>> >>
+                     ELSE << <<"outcome", ev.out, "AttributeError">> >>]
     [] ev.op = "ue" ->
          LET D    == DenOf(ev.fam)
              nzc  == TablePick(ev.size)
